@@ -7,7 +7,7 @@ from pyvc.sym import SInt, SReal
 from pyvc.interp import SObj, PyExc, exc_class, get_attr
 from pyvc.libmodels import _M
 
-LEVEL = 'proof'
+LEVEL = 'other'
 TRUSTED = ['E-DATETIME: calendar.timegm(timetuple of instant x) is x\'s whole seconds since 1970-01-01 UTC (an arbitrary integer here); datetime.time(...) stores its arguments; '
            'the calendar arithmetic of datetime/timedelta/strptime/string formatting is covered by the bounded stand-in only',
            'A-REAL: the float products time*1e6, microseconds*10 and the quotient /1e7 in uuid_from_time / unix_time_from_uuid1 are exact real arithmetic in the deductive part; how far binary64 '
